@@ -186,14 +186,18 @@ pub fn rc_get(bytes: &[u8], order: u32, i: usize) -> u64 {
         let bit = i * w;
         ((bytes[bit / 8] >> (bit % 8)) as u64) & ((1u64 << w) - 1)
     } else {
-        let n = w / 8;
-        let mut v = 0u64;
-        let mut k = 0;
-        while k < n {
-            v = (v << 8) | bytes[i * n + k] as u64;
-            k += 1;
+        // big-endian words (written out per width: no loop for the model checker to unwind)
+        let b = |k: usize| bytes[k] as u64;
+        match w {
+            8 => b(i),
+            16 => (b(2 * i) << 8) | b(2 * i + 1),
+            32 => (b(4 * i) << 24) | (b(4 * i + 1) << 16) | (b(4 * i + 2) << 8) | b(4 * i + 3),
+            _ => {
+                let o = 8 * i;
+                (b(o) << 56) | (b(o + 1) << 48) | (b(o + 2) << 40) | (b(o + 3) << 32)
+                    | (b(o + 4) << 24) | (b(o + 5) << 16) | (b(o + 6) << 8) | b(o + 7)
+            }
         }
-        v
     }
 }
 
